@@ -1,6 +1,831 @@
-//! C06 — not built yet.
+//! C06 — approved invoices are never overpaid in flight across all channels of a node; an outgoing
+//! HTLC with no invoice and no previously seen HTLC for its hash is refused unless covered by incoming
+//! value for the same hash in the same update; restarts included.
+//!
+//! One real `Node` (real persister `KVVPersister<MemoryKVVStore>`, `ManualClock`, default testnet
+//! policy) with 2–3 real channels.  Commitment updates go through the real
+//! `sign_counterparty_commitment_tx_phase2`, `validate_holder_commitment_tx_phase2` (with real
+//! counterparty signatures from `test_utils::counterparty_sign_holder_commitment`) and
+//! `revoke_previous_holder_commitment`; counterparty revocations use real chained secrets
+//! (`build_commitment_secret`).  Approvals through `add_keysend`, preimages through
+//! `Channel::htlcs_fulfilled`, pruning through `get_heartbeat`, restarts through
+//! `persister.get_nodes()` + `Node::restore_node`.
+//!
+//! Correspondence: every op line is also fed to the Lean model `payments`; compared are the result
+//! class and, for the three hashes of the alphabet, the approved amount and the payment entry
+//! (per-channel incoming/outgoing, cltv bounds, preimage flag) read from `node.get_state()`.
+//!
+//! Monitor (independent of the model): a ghost ledger of the ACCEPTED commitment contents per
+//! channel; after every accepted commitment request the conservation inequality is evaluated for every
+//! approved hash, and every accepted update is checked for unbacked outgoing value.
 use crate::common::*;
+use lightning_signer::bitcoin::hashes::sha256::Hash as Sha256Hash;
+use lightning_signer::bitcoin::hashes::Hash;
+use lightning_signer::bitcoin::secp256k1::{PublicKey, Secp256k1, SecretKey};
+use lightning_signer::bitcoin::{Network, OutPoint, Txid};
+use lightning_signer::lightning::ln::chan_utils::build_commitment_secret;
+use lightning_signer::lightning::types::payment::{PaymentHash, PaymentPreimage};
+use lightning_signer::node::{Node, NodeConfig, NodeServices};
+use lightning_signer::persist::Persist;
+use lightning_signer::policy::simple_validator::{make_default_simple_policy, SimpleValidatorFactory};
+use lightning_signer::signer::derive::KeyDerivationStyle;
+use lightning_signer::tx::tx::HTLCInfo2;
+use lightning_signer::util::clock::ManualClock;
+use lightning_signer::util::test_utils::key::make_test_pubkey;
+use lightning_signer::util::test_utils::*;
+use std::panic::{catch_unwind, AssertUnwindSafe};
+use std::sync::Arc;
+use std::time::Duration;
+use vls_persist::kvv::memory::MemoryKVVStore;
+use vls_persist::kvv::{JsonFormat, KVVPersister};
+
+const INITIAL_COMMITMENT_NUMBER: u64 = (1 << 48) - 1;
+const CHANNEL_VALUE: u64 = 10_000_000;
+const PUSH_MSAT: u64 = 4_000_000_000;
+const FEE: u64 = 3_000;
+const BASE_HOLDER: u64 = CHANNEL_VALUE - PUSH_MSAT / 1000 - FEE;
+const BASE_CP: u64 = PUSH_MSAT / 1000;
+const FEERATE: u32 = 253; // HTLC dust limit at this feerate: 330 + 253*703/1000 = 507 sat
+const NHASH: usize = 3;
+const T0: u64 = 1_600_000_000;
+
+/// (hash index, value_sat, cltv_expiry)
+type H = (usize, u64, u32);
+type View = (Vec<H>, Vec<H>); // (offered, received) as passed to the request
+
+fn preimage(i: usize) -> PaymentPreimage {
+    PaymentPreimage([i as u8 + 1; 32])
+}
+fn phash(i: usize) -> PaymentHash {
+    PaymentHash(Sha256Hash::hash(&preimage(i).0).to_byte_array())
+}
+fn to_info(v: &[H]) -> Vec<HTLCInfo2> {
+    v.iter().map(|(h, val, cltv)| HTLCInfo2 { value_sat: *val, payment_hash: phash(*h % NHASH), cltv_expiry: *cltv }).collect()
+}
+fn fmt_list(v: &[H]) -> String {
+    if v.is_empty() {
+        "-".into()
+    } else {
+        v.iter().map(|(h, val, c)| format!("{}:{}:{}", h, val, c)).collect::<Vec<_>>().join(",")
+    }
+}
+fn parse_list(s: &str) -> Option<Vec<H>> {
+    if s == "-" {
+        return Some(vec![]);
+    }
+    s.split(',')
+        .map(|x| {
+            let p: Vec<&str> = x.split(':').collect();
+            if p.len() != 3 {
+                return None;
+            }
+            Some((p[0].parse().ok()?, p[1].parse().ok()?, p[2].parse().ok()?))
+        })
+        .collect()
+}
+fn sum_for(v: &[H], h: usize) -> u128 {
+    v.iter().filter(|x| x.0 == h).map(|x| x.1 as u128).sum()
+}
+fn total(v: &[H]) -> u64 {
+    v.iter().fold(0u64, |a, x| a.saturating_add(x.1))
+}
+
+struct Chan {
+    ctx: TestChannelContext,
+    cp_seed: [u8; 32],
+    holder_next: u64,
+    cp_next: u64,
+    cp_revoke_next: u64,
+    // ghost ledger: contents of the accepted commitments
+    g_hcur: View,
+    g_hnext: Option<View>,
+    g_ccur: View,
+}
+
+impl Chan {
+    /// outgoing / incoming value of the ghost ledger for hash `h` with explicit views
+    fn out_in(hv: &View, cv: &View, h: usize) -> (u128, u128) {
+        // holder: offered = outgoing, received = incoming; counterparty: received = outgoing, offered = incoming
+        let out = sum_for(&hv.0, h).max(sum_for(&cv.1, h));
+        let inc = sum_for(&hv.1, h).min(sum_for(&cv.0, h));
+        (out, inc)
+    }
+}
+
+struct World {
+    persister: Arc<dyn Persist>,
+    clock: Arc<ManualClock>,
+    seed: [u8; 32],
+    ctx: TestNodeContext,
+    chans: Vec<Chan>,
+    max_fee: u64,
+    /// hashes approved while the ghost ledger already had outgoing value for them
+    tainted: [bool; NHASH],
+}
+
+fn services(persister: Arc<dyn Persist>, clock: Arc<ManualClock>) -> NodeServices {
+    let policy = make_default_simple_policy(Network::Testnet);
+    NodeServices {
+        validator_factory: Arc::new(SimpleValidatorFactory::new_with_policy(policy)),
+        starting_time_factory: make_genesis_starting_time_factory(Network::Testnet),
+        persister,
+        clock,
+        trusted_oracle_pubkeys: vec![],
+    }
+}
+
+fn node_config() -> NodeConfig {
+    NodeConfig {
+        network: Network::Testnet,
+        key_derivation_style: KeyDerivationStyle::Native,
+        use_checkpoints: true,
+        allow_deep_reorgs: true,
+    }
+}
+
+fn cp_secret(seed: &[u8; 32], n: u64) -> SecretKey {
+    SecretKey::from_slice(&build_commitment_secret(seed, INITIAL_COMMITMENT_NUMBER - n)).unwrap()
+}
+fn cp_point(seed: &[u8; 32], n: u64) -> PublicKey {
+    PublicKey::from_secret_key(&Secp256k1::new(), &cp_secret(seed, n))
+}
+
+impl World {
+    fn new(nch: usize) -> World {
+        let persister: Arc<dyn Persist> = Arc::new(KVVPersister(MemoryKVVStore::new([6u8; 16]), JsonFormat));
+        let clock = Arc::new(ManualClock::new(Duration::from_secs(T0)));
+        let seed = [0x6cu8; 32];
+        let config = node_config();
+        let node = Arc::new(Node::new(config, &seed, vec![], services(persister.clone(), clock.clone())));
+        persister.new_node(&node.get_id(), &config, &*node.get_state()).unwrap();
+        persister.new_tracker(&node.get_id(), &node.get_tracker()).unwrap();
+        node.add_allowlist(&[]).unwrap();
+        let ctx = TestNodeContext { node, secp_ctx: Secp256k1::signing_only() };
+        let max_fee = make_default_simple_policy(Network::Testnet).max_routing_fee_msat;
+        let mut w = World { persister, clock, seed, ctx, chans: vec![], max_fee, tainted: [false; NHASH] };
+        for i in 0..nch {
+            w.open(i);
+        }
+        w
+    }
+
+    fn open(&mut self, i: usize) {
+        let mut chan_ctx = test_chan_ctx_with_push_val(&self.ctx, i + 1, CHANNEL_VALUE, PUSH_MSAT);
+        chan_ctx.setup.funding_outpoint =
+            OutPoint { txid: Txid::from_slice(&[0xa0 + i as u8; 32]).unwrap(), vout: 0 };
+        self.ctx
+            .node
+            .setup_channel(chan_ctx.channel_id.clone(), None, chan_ctx.setup.clone(), &Default::default())
+            .expect("setup_channel");
+        let mut c0 = channel_commitment(&self.ctx, &chan_ctx, 0, FEERATE, BASE_HOLDER, BASE_CP, vec![], vec![]);
+        let (csig, hsigs) = counterparty_sign_holder_commitment(&self.ctx, &chan_ctx, &mut c0);
+        validate_holder_commitment(&self.ctx, &chan_ctx, &c0, &csig, &hsigs).expect("holder commitment 0");
+        let cp_seed = [0x30 + i as u8; 32];
+        let p0 = cp_point(&cp_seed, 0);
+        self.ctx
+            .node
+            .with_channel(&chan_ctx.channel_id, |chan| {
+                chan.sign_counterparty_commitment_tx_phase2(&p0, 0, FEERATE, BASE_HOLDER, BASE_CP, vec![], vec![])
+            })
+            .expect("counterparty commitment 0");
+        self.chans.push(Chan {
+            ctx: chan_ctx,
+            cp_seed,
+            holder_next: 1,
+            cp_next: 1,
+            cp_revoke_next: 0,
+            g_hcur: (vec![], vec![]),
+            g_hnext: None,
+            g_ccur: (vec![], vec![]),
+        });
+    }
+
+    fn digest(&self) -> String {
+        let st = self.ctx.node.get_state();
+        let mut parts = Vec::new();
+        for h in 0..NHASH {
+            let ph = phash(h);
+            let inv = st.invoices.get(&ph).map(|i| i.amount_msat.to_string()).unwrap_or_else(|| "-".into());
+            let pay = match st.payments.get(&ph) {
+                None => "-".to_string(),
+                Some(p) => {
+                    let per: Vec<String> = self
+                        .chans
+                        .iter()
+                        .map(|c| {
+                            format!(
+                                "{}/{}",
+                                p.incoming.get(&c.ctx.channel_id).copied().unwrap_or(0),
+                                p.outgoing.get(&c.ctx.channel_id).copied().unwrap_or(0)
+                            )
+                        })
+                        .collect();
+                    let o = |x: Option<u32>| x.map(|v| v.to_string()).unwrap_or_else(|| "-".into());
+                    format!(
+                        "{}:{}:{}:{}",
+                        per.join(","),
+                        o(p.incoming_cltv_min),
+                        o(p.outgoing_cltv_max),
+                        if p.preimage.is_some() { 1 } else { 0 }
+                    )
+                }
+            };
+            parts.push(format!("{} {}", inv, pay));
+        }
+        parts.join(" | ")
+    }
+
+    /// (hash has an invoice, hash has a payment entry) as the implementation sees it
+    fn seen(&self, h: usize) -> (bool, bool) {
+        let st = self.ctx.node.get_state();
+        (st.invoices.contains_key(&phash(h)), st.payments.contains_key(&phash(h)))
+    }
+
+    fn ledger_totals(&self, h: usize) -> (u128, u128) {
+        let (mut out, mut inc) = (0u128, 0u128);
+        for c in &self.chans {
+            let (o, i) = Chan::out_in(&c.g_hcur, &c.g_ccur, h);
+            out += o;
+            inc += i;
+        }
+        (out, inc)
+    }
+
+    /// conservation inequality on the ghost ledger for every approved hash
+    fn check_conservation(&self, at: usize, co: &mut CaseOut) {
+        let approved: Vec<(usize, u64)> = {
+            let st = self.ctx.node.get_state();
+            (0..NHASH).filter_map(|h| st.invoices.get(&phash(h)).map(|i| (h, i.amount_msat))).collect()
+        };
+        for (h, amt) in approved {
+            let (out, inc) = self.ledger_totals(h);
+            if out * 1000 > inc * 1000 + amt as u128 + self.max_fee as u128 {
+                let kind = if self.tainted[h] { "approved-over-inflight-overpaid" } else { "invoice-overpaid-in-flight" };
+                co.tags.insert(format!("monitor:{}", kind));
+                co.violations.push(Violation {
+                    kind: kind.into(),
+                    desc: format!(
+                        "hash {}: {} sat outgoing in flight over all channels vs {} sat incoming + approved {} msat + fee allowance {} msat",
+                        h, out, inc, amt, self.max_fee
+                    ),
+                    at,
+                });
+            }
+        }
+    }
+
+    /// an accepted update on channel `c` with effective views (hv, cv): unbacked outgoing value?
+    fn check_unbacked(&self, at: usize, pre_seen: &[(bool, bool)], hv: &View, cv: &View, co: &mut CaseOut) {
+        for h in 0..NHASH {
+            let (inv, pay) = pre_seen[h];
+            if inv || pay {
+                continue;
+            }
+            let (out, inc) = Chan::out_in(hv, cv, h);
+            if out > inc {
+                co.tags.insert("monitor:unbacked-outgoing-accepted".into());
+                co.violations.push(Violation {
+                    kind: "unbacked-outgoing-accepted".into(),
+                    desc: format!(
+                        "hash {} (no invoice, never seen): update accepted with {} sat outgoing vs {} sat incoming on the channel",
+                        h, out, inc
+                    ),
+                    at,
+                });
+            }
+        }
+    }
+}
+
+fn status_tag(msg: &str) -> String {
+    // "policy failure: <function>: ..." -> the function that refused
+    let m = msg.strip_prefix("policy failure: ").unwrap_or(msg);
+    let f: String = m.chars().take_while(|c| c.is_ascii_alphanumeric() || *c == '_').collect();
+    if m.contains("retry") {
+        "retry-same".into()
+    } else if m.contains("initial commitment") {
+        "initial-commitment".into()
+    } else if f.is_empty() {
+        "other".into()
+    } else {
+        f
+    }
+}
+
+pub struct C06Node;
+
+fn split(s: &str) -> Vec<String> {
+    s.split('|').map(|x| x.trim().to_string()).collect()
+}
+
+impl C06Node {
+    /// `plain`: only the standard cltv values (no cltv-delta refusals).  Used in cases that contain a
+    /// u64-extreme approval: `validate_payments` returns the cltv refusal of one hash early (`?`) while
+    /// the overflow panic of another hash happens in the same loop over an unordered set, so the result
+    /// class of such an update depends on the set's iteration order.
+    fn random_htlc(rng: &mut Rng, outgoing: bool, plain: bool) -> H {
+        if plain {
+            let (h, v, _) = Self::random_htlc(rng, outgoing, false);
+            return (h, v, if outgoing { 500 } else { 600 });
+        }
+        let h = rng.below(NHASH as u64) as usize;
+        let v = *rng.pick(&[600u64, 2000, 2200, 2220, 50_000, 50_222, 50_223, 100_000, 100_222, 100_223, 200_000]);
+        let cltv = if outgoing { *rng.pick(&[500u32, 500, 500, 515, 610]) } else { *rng.pick(&[600u32, 600, 600, 520]) };
+        (h, v, cltv)
+    }
+    /// mutate a view given as (outgoing, incoming) lists
+    fn mutate(rng: &mut Rng, out: &mut Vec<H>, inc: &mut Vec<H>, mirror: (&Vec<H>, &Vec<H>), plain: bool) {
+        match rng.below(100) {
+            0..=34 => {
+                *out = mirror.0.clone();
+                *inc = mirror.1.clone();
+            }
+            35..=74 => {
+                if rng.chance(3, 5) {
+                    if out.len() < 4 {
+                        out.push(Self::random_htlc(rng, true, plain));
+                    }
+                } else if inc.len() < 4 {
+                    inc.push(Self::random_htlc(rng, false, plain));
+                }
+            }
+            75..=93 => {
+                if rng.chance(1, 2) && !out.is_empty() {
+                    let k = rng.below(out.len() as u64) as usize;
+                    out.remove(k);
+                } else if !inc.is_empty() {
+                    let k = rng.below(inc.len() as u64) as usize;
+                    inc.remove(k);
+                } else if !out.is_empty() {
+                    out.remove(0);
+                }
+            }
+            _ => {
+                out.clear();
+                inc.clear();
+            }
+        }
+    }
+}
+
+/// generator-side picture of a channel, assuming every request is accepted
+#[derive(Clone, Default)]
+struct Sim {
+    cp_out: Vec<H>,
+    cp_inc: Vec<H>,
+    h_out: Vec<H>,
+    h_inc: Vec<H>,
+}
+impl Sim {
+    fn cpsign(&self, c: usize, kind: &str) -> String {
+        // counterparty tx: offered = incoming for us, received = outgoing
+        format!("cpsign {} {} {} {}", c, kind, fmt_list(&self.cp_inc), fmt_list(&self.cp_out))
+    }
+    fn hval(&self, c: usize, kind: &str) -> String {
+        format!("hval {} {} {} {}", c, kind, fmt_list(&self.h_out), fmt_list(&self.h_inc))
+    }
+}
+
+impl Group for C06Node {
+    fn property(&self) -> &'static str {
+        "C06"
+    }
+    fn model(&self) -> Option<&'static str> {
+        Some("payments")
+    }
+    fn rule(&self) -> &'static str {
+        "one real Node with 2-3 channels; payment hashes from an alphabet of 3; HTLC values around the approved amounts \
+         (amount, amount+fee allowance, +1 sat, 10%/11% fee) and cltv values around the cltv_delta bound; random interleavings of \
+         counterparty-commitment signing, holder-commitment validation and revocation per channel with diverging holder/counterparty \
+         views, multi-part splits over channels, add/remove, retries, keysend approvals (incl. duplicates and u64 extremes), \
+         preimages, heartbeat pruning under a manual clock, restarts through the real persister; a case is non-trivial when it \
+         contains an accepted commitment request carrying HTLCs and a refused commitment request"
+    }
+    fn budget(&self, tier: Tier) -> usize {
+        if tier == Tier::Quick {
+            1500
+        } else {
+            25000
+        }
+    }
+    fn model_line(&self, op: &str) -> Option<String> {
+        let t: Vec<&str> = op.split_whitespace().collect();
+        match t.as_slice() {
+            ["init", nch] => {
+                // the policy numbers are read from the crate the harness is linked against
+                let p = make_default_simple_policy(Network::Testnet);
+                Some(format!("init {} {} {} {}", nch, p.max_routing_fee_msat, p.max_feerate_percentage, p.cltv_delta))
+            }
+            _ => Some(op.to_string()),
+        }
+    }
+    fn corpus(&self) -> Vec<Vec<String>> {
+        let t = T0;
+        vec![
+            // F2 witness: validate on A, sign on B, revoke on A  => must be refused at the revoke
+            split(&format!("init 2|keysend 0 100000000 {t}|hval 0 new 0:100000:500 -|cpsign 1 new - 0:100000:500|revoke 0|cpsign 0 new - -|restart|revoke 0")),
+            // mirror image: sign on B first, then validate on A is refused already
+            split(&format!("init 2|keysend 0 100000000 {t}|cpsign 1 new - 0:100000:500|hval 0 new 0:100000:500 -|revoke 0")),
+            // multi-part split over three channels up to amount + fee allowance, one sat more refused
+            split(&format!("init 3|keysend 1 100000000 {t}|cpsign 0 new - 1:50000:500|cpsign 1 new - 1:50000:500|cpsign 1 new - 1:50000:500|cpsign 2 new - 1:1223:500|cprevoke 1|cpsign 1 new - 1:49000:500|cpsign 2 new - 1:1223:500|cpsign 2 new - 1:1222:500|hval 0 new 1:50000:500 -|revoke 0|restart|cpsign 2 retry - 1:1222:500|cprevoke 2|cpsign 2 new - 1:1222:500,1:600:500|cpsign 2 new - 1:600:500")),
+            // unbacked outgoing refused; backed by incoming in the same update accepted (holder+cp views)
+            split("init 2|cpsign 0 new - 2:2000:500|hval 0 new 2:2000:500 -|cpsign 0 new 2:2000:600 2:2000:500|hval 0 new 2:2000:500 2:2000:600|hval 0 new - 2:2000:600|revoke 0|cpsign 0 new 2:2000:600 2:2001:500|cpsign 0 new 2:2000:600 2:2000:500|cpsign 0 retry 2:2000:600 2:2000:500|hval 0 new 2:2000:500 2:2000:600|revoke 0"),
+            // routed payment A -> B, incoming removed first (issue 331 tolerance), then an approval for the same hash
+            split(&format!("init 3|hval 0 new - 0:100000:600|revoke 0|cpsign 0 new 0:100000:600 -|cpsign 1 new - 0:100000:500|hval 0 new - -|revoke 0|keysend 0 1000 {t}|cpsign 2 new - -|cpsign 1 retry - 0:100000:500")),
+            // fulfilled keysend pruned while still in flight, approved again, paid again on another channel
+            split(&format!("init 2|keysend 0 100000000 {t}|cpsign 0 new - 0:100000:500|fulfill 0 0|heartbeat {}|keysend 0 100000000 {}|cpsign 1 new - 0:100000:500|restart|cpsign 1 retry - 0:100000:500", t + 61, t + 61)),
+            // restart with an approved keysend that has no HTLC yet, then heartbeat (prune_invoices expects a payments entry)
+            split(&format!("init 2|keysend 2 5000000 {t}|restart|cpsign 0 new - 2:2000:500|heartbeat {}|keysend 1 7 {t}|restart|heartbeat {}", t + 10, t + 20)),
+            // fee percentage edge: 2000 sat approved, 10% ok, 11% refused; cltv delta edge
+            split(&format!("init 2|keysend 0 2000000 {t}|cpsign 0 new - 0:2200:500|cprevoke 0|cpsign 0 new - 0:2220:500|hval 1 new - 1:50000:520|revoke 1|cpsign 1 new 1:50000:520 1:50000:515|cprevoke 1|cpsign 1 new 1:50000:520 -|cpsign 1 new - -")),
+            // u64 extreme approval: a + max_routing_fee overflows
+            split(&format!("init 2|keysend 0 18446744073709551615 {t}|cpsign 0 new - 0:2000:500|cpsign 1 new - -")),
+        ]
+    }
+    fn gen_case(&self, rng: &mut Rng, tier: Tier) -> Vec<String> {
+        let nch = rng.range(2, 3) as usize;
+        let mut ops = vec![format!("init {}", nch)];
+        let mut now = T0;
+        let mut sims: Vec<Sim> = vec![Sim::default(); nch];
+        // cases with u64-extreme approvals (overflow panics) use plain cltv values only, see random_htlc
+        let extreme = rng.chance(1, 6);
+        let len = rng.range(6, if tier == Tier::Quick { 18 } else { 40 }) as usize;
+        // most cases start with one or two approvals so that outgoing HTLCs have something to pay
+        for _ in 0..rng.below(3) {
+            let amt = *rng.pick(&[100_000_000u64, 100_000_000, 50_000_000, 2_000_000]);
+            ops.push(format!("keysend {} {} {}", rng.below(NHASH as u64), amt, now));
+        }
+        if rng.chance(1, 4) {
+            // cross-channel time-of-check/time-of-use shape (F2) with random parameters: a pending holder
+            // commitment on A, a signed counterparty commitment on B, then the revocation on A
+            let h = rng.below(NHASH as u64) as usize;
+            let amt_sat = *rng.pick(&[50_000u64, 100_000, 2_000]);
+            let (a, b) = (0usize, 1 + rng.below(nch as u64 - 1) as usize);
+            let va = *rng.pick(&[amt_sat, amt_sat / 2, amt_sat + 222, 600]);
+            let vb = *rng.pick(&[amt_sat, amt_sat / 2, amt_sat - va.min(amt_sat - 600) + 222, amt_sat - va.min(amt_sat - 600) + 223, 600]);
+            ops.push(format!("keysend {} {} {}", h, amt_sat * 1000, now));
+            sims[a].h_out.push((h, va, 500));
+            ops.push(sims[a].hval(a, "new"));
+            sims[b].cp_out.push((h, vb, 500));
+            if rng.chance(1, 2) {
+                ops.push(sims[b].cpsign(b, "new"));
+            } else {
+                sims[b].h_out.push((h, vb, 500));
+                ops.push(sims[b].hval(b, "new"));
+                ops.push(format!("revoke {}", b));
+            }
+            if rng.chance(1, 3) {
+                ops.push("restart".into());
+            }
+            ops.push(format!("revoke {}", a));
+            sims[a].cp_out.push((h, va, 500));
+            ops.push(sims[a].cpsign(a, "new"));
+        }
+        while ops.len() < len + 1 {
+            let c = rng.below(nch as u64) as usize;
+            match rng.below(100) {
+                0..=11 => {
+                    let h = rng.below(NHASH as u64);
+                    let amt = match rng.below(20) {
+                        0 if extreme => u64::MAX,
+                        1 if extreme => u64::MAX - 222_000,
+                        0 | 1 => 100_222_000,
+                        2 => 1,
+                        3 | 4 => 2_000_000,
+                        5 | 6 => 50_000_000,
+                        7 => 200_000_000,
+                        _ => 100_000_000,
+                    };
+                    ops.push(format!("keysend {} {} {}", h, amt, now));
+                }
+                12..=26 => {
+                    // full add of one HTLC on one channel: three requests in one of two orders
+                    let outgoing = rng.chance(3, 5);
+                    let htlc = Self::random_htlc(rng, outgoing, extreme);
+                    let s = &mut sims[c];
+                    let cp_first = rng.chance(1, 2);
+                    if outgoing {
+                        s.cp_out.push(htlc);
+                        s.h_out.push(htlc);
+                    } else {
+                        s.cp_inc.push(htlc);
+                        s.h_inc.push(htlc);
+                    }
+                    if s.cp_out.len() + s.cp_inc.len() > 5 || s.h_out.len() + s.h_inc.len() > 5 {
+                        *s = Sim::default();
+                    }
+                    if cp_first {
+                        ops.push(format!("cprevoke {}", c));
+                        ops.push(s.cpsign(c, "new"));
+                        ops.push(s.hval(c, "new"));
+                        ops.push(format!("revoke {}", c));
+                    } else {
+                        ops.push(s.hval(c, "new"));
+                        ops.push(format!("revoke {}", c));
+                        ops.push(format!("cprevoke {}", c));
+                        ops.push(s.cpsign(c, "new"));
+                    }
+                }
+                27..=46 => {
+                    let s = &mut sims[c];
+                    let (mo, mi) = (s.h_out.clone(), s.h_inc.clone());
+                    Self::mutate(rng, &mut s.cp_out, &mut s.cp_inc, (&mo, &mi), extreme);
+                    if rng.chance(9, 10) {
+                        ops.push(format!("cprevoke {}", c));
+                    }
+                    ops.push(s.cpsign(c, "new"));
+                }
+                47..=62 => {
+                    let s = &mut sims[c];
+                    let (mo, mi) = (s.cp_out.clone(), s.cp_inc.clone());
+                    Self::mutate(rng, &mut s.h_out, &mut s.h_inc, (&mo, &mi), extreme);
+                    ops.push(s.hval(c, "new"));
+                }
+                63..=78 => ops.push(format!("revoke {}", c)),
+                79..=82 => {
+                    let mut s = sims[c].clone();
+                    if rng.chance(1, 4) {
+                        s.cp_out.push(Self::random_htlc(rng, true, extreme));
+                    }
+                    ops.push(s.cpsign(c, "retry"));
+                }
+                83..=85 => {
+                    let mut s = sims[c].clone();
+                    if rng.chance(1, 4) {
+                        s.h_inc.push(Self::random_htlc(rng, false, extreme));
+                    }
+                    ops.push(s.hval(c, "retry"));
+                }
+                86..=89 => ops.push(format!("fulfill {} {}", c, rng.below(NHASH as u64))),
+                90..=93 => {
+                    now += *rng.pick(&[0u64, 30, 60, 61, 100]);
+                    ops.push(format!("heartbeat {}", now));
+                }
+                94..=97 => ops.push("restart".into()),
+                _ => now += *rng.pick(&[1u64, 59, 61]),
+            }
+        }
+        ops
+    }
+
+    fn exec_case(&self, ops: &[String]) -> CaseOut {
+        let mut co = CaseOut::default();
+        let mut world: Option<World> = None;
+        let mut dead = false;
+        let (mut acc_with_htlcs, mut refused) = (false, false);
+        for (i, op) in ops.iter().enumerate() {
+            let t: Vec<&str> = op.split_whitespace().collect();
+            if t.first() == Some(&"init") {
+                let nch: usize = t.get(1).and_then(|x| x.parse().ok()).unwrap_or(2).clamp(1, 4);
+                let w = World::new(nch);
+                co.out.push(format!("ok {}", w.digest()));
+                world = Some(w);
+                dead = false;
+                continue;
+            }
+            if dead {
+                co.out.push("dead".into());
+                continue;
+            }
+            let w = world.as_mut().expect("init first");
+            let r = catch_unwind(AssertUnwindSafe(|| exec_op(w, &t, i, &mut co)));
+            match r {
+                Err(_) => {
+                    dead = true;
+                    co.tags.insert(format!("{}:panic", t[0]));
+                    co.out.push("panic".into());
+                }
+                Ok(None) => co.out.push("bad-op".into()),
+                Ok(Some((res, had_htlcs))) => {
+                    let commit = matches!(t[0], "cpsign" | "hval" | "revoke");
+                    if commit && res == "ok" && had_htlcs {
+                        acc_with_htlcs = true;
+                    }
+                    if commit && res == "err" {
+                        refused = true;
+                    }
+                    co.tags.insert(format!("{}:{}", t[0], res));
+                    co.out.push(format!("{} {}", res, w.digest()));
+                }
+            }
+        }
+        co.nontrivial = acc_with_htlcs && refused;
+        co
+    }
+}
+
+/// executes one op; returns (result class, the request carried HTLCs)
+fn exec_op(w: &mut World, t: &[&str], at: usize, co: &mut CaseOut) -> Option<(String, bool)> {
+    match t {
+        ["keysend", h, amt, now] => {
+            let h: usize = h.parse().ok()?;
+            let amt: u64 = amt.parse().ok()?;
+            let now: u64 = now.parse().ok()?;
+            w.clock.set(Duration::from_secs(now));
+            let had = w.seen(h % NHASH).0;
+            let r = w.ctx.node.add_keysend(make_test_pubkey(1), phash(h % NHASH), amt);
+            Some((
+                match r {
+                    Ok(true) => {
+                        if !had {
+                            w.tainted[h % NHASH] = w.ledger_totals(h % NHASH).0 > 0;
+                            if w.tainted[h % NHASH] {
+                                co.tags.insert("approved-while-outgoing-in-flight".into());
+                            }
+                        }
+                        "true".into()
+                    }
+                    Ok(false) => "false".into(),
+                    Err(_) => "err".into(),
+                },
+                false,
+            ))
+        }
+        ["cpsign", c, kind, off, rcv] => {
+            let c: usize = c.parse().ok()?;
+            let is_new = match *kind {
+                "new" => true,
+                "retry" => false,
+                _ => return None,
+            };
+            let off = parse_list(off)?;
+            let rcv = parse_list(rcv)?;
+            if c >= w.chans.len() {
+                return None;
+            }
+            let pre_seen: Vec<(bool, bool)> = (0..NHASH).map(|h| w.seen(h)).collect();
+            let (n, seed, id) = {
+                let ch = &w.chans[c];
+                (if is_new { ch.cp_next } else { ch.cp_next - 1 }, ch.cp_seed, ch.ctx.channel_id.clone())
+            };
+            let point = cp_point(&seed, n);
+            let to_holder = BASE_HOLDER.saturating_sub(total(&rcv));
+            let to_cp = BASE_CP.saturating_sub(total(&off));
+            let (o2, r2) = (to_info(&off), to_info(&rcv));
+            let r = w.ctx.node.with_channel(&id, |chan| {
+                chan.sign_counterparty_commitment_tx_phase2(&point, n, FEERATE, to_holder, to_cp, o2.clone(), r2.clone())
+            });
+            let had = !off.is_empty() || !rcv.is_empty();
+            Some((
+                match r {
+                    Ok(_) => {
+                        let view: View = (off, rcv);
+                        if is_new {
+                            w.chans[c].cp_next += 1;
+                            w.chans[c].g_ccur = view.clone();
+                        }
+                        let hv = w.chans[c].g_hcur.clone();
+                        w.check_unbacked(at, &pre_seen, &hv, &view, co);
+                        w.check_conservation(at, co);
+                        "ok".into()
+                    }
+                    Err(e) => {
+                        if std::env::var("C06_DEBUG").is_ok() { eprintln!("cpsign err: {}", e.message()); } co.tags.insert(format!("cpsign:err:{}", status_tag(e.message())));
+                        "err".into()
+                    }
+                },
+                had,
+            ))
+        }
+        ["hval", c, kind, off, rcv] => {
+            let c: usize = c.parse().ok()?;
+            let is_new = match *kind {
+                "new" => true,
+                "retry" => false,
+                _ => return None,
+            };
+            let off = parse_list(off)?;
+            let rcv = parse_list(rcv)?;
+            if c >= w.chans.len() {
+                return None;
+            }
+            let pre_seen: Vec<(bool, bool)> = (0..NHASH).map(|h| w.seen(h)).collect();
+            let n = if is_new { w.chans[c].holder_next } else { w.chans[c].holder_next - 1 };
+            let to_b = BASE_HOLDER.saturating_sub(total(&off));
+            let to_c = BASE_CP.saturating_sub(total(&rcv));
+            let (o2, r2) = (to_info(&off), to_info(&rcv));
+            let mut cctx = channel_commitment(&w.ctx, &w.chans[c].ctx, n, FEERATE, to_b, to_c, o2.clone(), r2.clone());
+            let (csig, hsigs) = counterparty_sign_holder_commitment(&w.ctx, &w.chans[c].ctx, &mut cctx);
+            let id = w.chans[c].ctx.channel_id.clone();
+            let r = w.ctx.node.with_channel(&id, |chan| {
+                chan.validate_holder_commitment_tx_phase2(n, FEERATE, to_b, to_c, o2.clone(), r2.clone(), &csig, &hsigs)
+            });
+            let had = !off.is_empty() || !rcv.is_empty();
+            Some((
+                match r {
+                    Ok(_) => {
+                        let view: View = (off, rcv);
+                        if is_new {
+                            w.chans[c].g_hnext = Some(view.clone());
+                        }
+                        let cv = w.chans[c].g_ccur.clone();
+                        w.check_unbacked(at, &pre_seen, &view, &cv, co);
+                        w.check_conservation(at, co);
+                        "ok".into()
+                    }
+                    Err(e) => {
+                        co.tags.insert(format!("hval:err:{}", status_tag(e.message())));
+                        "err".into()
+                    }
+                },
+                had,
+            ))
+        }
+        ["revoke", c] => {
+            let c: usize = c.parse().ok()?;
+            if c >= w.chans.len() {
+                return None;
+            }
+            let pre_seen: Vec<(bool, bool)> = (0..NHASH).map(|h| w.seen(h)).collect();
+            let n = w.chans[c].holder_next;
+            let id = w.chans[c].ctx.channel_id.clone();
+            let r = w.ctx.node.with_channel(&id, |chan| chan.revoke_previous_holder_commitment(n));
+            let had = w.chans[c].g_hnext.as_ref().map(|v| !v.0.is_empty() || !v.1.is_empty()).unwrap_or(false);
+            Some((
+                match r {
+                    Ok(_) => {
+                        w.chans[c].holder_next += 1;
+                        if let Some(v) = w.chans[c].g_hnext.take() {
+                            w.chans[c].g_hcur = v;
+                        } else {
+                            // a revocation was accepted although no successor had been validated
+                            co.violations.push(Violation {
+                                kind: "revoke-without-validated-successor".into(),
+                                desc: format!("channel {}: revoke accepted with no validated next holder commitment", c),
+                                at,
+                            });
+                        }
+                        let (hv, cv) = (w.chans[c].g_hcur.clone(), w.chans[c].g_ccur.clone());
+                        w.check_unbacked(at, &pre_seen, &hv, &cv, co);
+                        w.check_conservation(at, co);
+                        "ok".into()
+                    }
+                    Err(e) => {
+                        co.tags.insert(format!("revoke:err:{}", status_tag(e.message())));
+                        "err".into()
+                    }
+                },
+                had,
+            ))
+        }
+        ["cprevoke", c] => {
+            let c: usize = c.parse().ok()?;
+            if c >= w.chans.len() {
+                return None;
+            }
+            let m = w.chans[c].cp_revoke_next;
+            let secret = cp_secret(&w.chans[c].cp_seed, m);
+            let id = w.chans[c].ctx.channel_id.clone();
+            let r = w.ctx.node.with_channel(&id, |chan| chan.validate_counterparty_revocation(m, &secret));
+            Some((
+                match r {
+                    Ok(_) => {
+                        w.chans[c].cp_revoke_next += 1;
+                        "ok".into()
+                    }
+                    Err(_) => "err".into(),
+                },
+                false,
+            ))
+        }
+        ["fulfill", c, h] => {
+            let c: usize = c.parse().ok()?;
+            let h: usize = h.parse().ok()?;
+            if c >= w.chans.len() {
+                return None;
+            }
+            let id = w.chans[c].ctx.channel_id.clone();
+            w.ctx
+                .node
+                .with_channel(&id, |chan| {
+                    chan.htlcs_fulfilled(vec![preimage(h % NHASH)]);
+                    Ok(())
+                })
+                .expect("htlcs_fulfilled");
+            Some(("ok".into(), false))
+        }
+        ["heartbeat", now] => {
+            let now: u64 = now.parse().ok()?;
+            w.clock.set(Duration::from_secs(now));
+            let _ = w.ctx.node.get_heartbeat();
+            for h in 0..NHASH {
+                if !w.seen(h).0 {
+                    w.tainted[h] = false;
+                }
+            }
+            Some(("ok".into(), false))
+        }
+        ["restart"] => {
+            let (node_id, entry) = w.persister.get_nodes().unwrap().into_iter().next().unwrap();
+            // drop the old node first: the restored one is built from the store only
+            let placeholder = Node::restore_node(&node_id, entry, &w.seed, services(w.persister.clone(), w.clock.clone())).unwrap();
+            w.ctx = TestNodeContext { node: placeholder, secp_ctx: Secp256k1::signing_only() };
+            Some(("ok".into(), false))
+        }
+        _ => None,
+    }
+}
 
 pub fn groups() -> Vec<Box<dyn Group>> {
-    vec![]
+    vec![Box::new(C06Node)]
 }
